@@ -63,8 +63,15 @@ posix_spawn(pid_t *pid, const char *path, const posix_spawn_file_actions_t *fa,
 	if (rec != NULL && !strcmp(path, "/usr/sbin/sendmail")) {
 		const char *mf = getenv("E3_MAILFILE");
 		char *nargv[32];
-		char *nenv[] = {NULL};
+		static char delay[48];
+		char *nenv[] = {NULL, NULL};
 		int n = 0;
+
+		if (getenv("E3_MAILDELAY") != NULL) {
+			/* the stand-in is to dawdle: hand the wish on */
+			snprintf(delay, sizeof(delay), "E3_MAILDELAY=%s", getenv("E3_MAILDELAY"));
+			nenv[0] = delay;
+		}
 
 		nargv[n++] = (char*)rec;
 		nargv[n++] = (char*)(mf ? mf : "/dev/null");
